@@ -54,7 +54,7 @@ type Case struct {
 	Continue bool   `json:"continue_on_errors"`
 }
 
-var names = []string{"x", "x", "a", "b", "x.x", "a.a", "default", "example", "items", "é", "list", "k"}
+var names = []string{"x", "x", "a", "b", "x.x", "a.a", "default", "example", "items", "é", "list", "k", "", "v1.", "a."}
 
 type builder struct {
 	t      *rapid.T
@@ -204,7 +204,7 @@ func (b *builder) tree(depth int, where, pathD, pathE string, vd, ve *visitedRep
 			props := map[string]any{}
 			n := rapid.IntRange(1, 3).Draw(b.t, "nprops")
 			for i := 0; i < n; i++ {
-				nm := rapid.SampledFrom(names).Draw(b.t, "pname")
+				nm := gen.PickUniform(b.t, names, "pname")
 				if _, dup := props[nm]; dup {
 					continue
 				}
@@ -342,8 +342,27 @@ func genCase(t *rapid.T) Case {
 		}
 		// site B2: the 200 response schema of a second operation, which gets no extra parameters or headers
 		// (the traversal state left by one response must not hide the schema of the next)
-		if len(info.Ops) > 1 && (info.Ops[1].Path != oi.Path || info.Ops[1].Method != oi.Method) {
-			o2 := info.Ops[1]
+		second := -1
+		for j := 1; j < len(info.Ops); j++ {
+			if info.Ops[j].Path == oi.Path && info.Ops[j].Method == oi.Method {
+				continue
+			}
+			if second < 0 {
+				second = j
+			}
+			if len(info.Placeholders[info.Ops[j].Path]) == 0 {
+				second = j // an operation that can do without any parameter: preferred, see below
+				break
+			}
+		}
+		if second > 0 {
+			o2 := info.Ops[second]
+			if len(info.Placeholders[o2.Path]) == 0 && rapid.Bool().Draw(t, "bareoperation") {
+				// no parameter at all: nothing then stands between the responses of two operations in the traversal
+				for _, d := range []map[string]any{doc, base} {
+					delete(d["paths"].(map[string]any)[o2.Path].(map[string]any)[o2.Method].(map[string]any), "parameters")
+				}
+			}
 			vd3, ve3 := &visitedReplica{map[string]bool{}}, &visitedReplica{map[string]bool{}}
 			tree2 := b.tree(depth, "response 200 schema of "+o2.ID, "200", "200", vd3, ve3, false, false, leafDef, 0)
 			for _, pair := range []struct {
